@@ -449,6 +449,42 @@ fn hol_tuple(h: &LegalHoliday) -> (Ymd, bool, String) {
   (ymd(&h.get_day()), h.is_work(), h.get_name())
 }
 
+/// histories: a single-thread sequence of 6..16 festival look-ups on related days (by date and by index, civil
+/// and lunar mixed); each look-up is judged by the same per-look-up oracle as the sweeps
+fn history(i: usize, cfg: &Cfg, recs: &[SolarRec], kinds: &[LunarKind], log: &mut Log) {
+  let c = cal();
+  let seq = lunar_seq();
+  let mut rng = Rng::new(mix(cfg.seed, i as u64 ^ 0x3C20));
+  let len = rng.range(6, 16);
+  let (lo, hi) = (c.year_first(31), c.year_first(9998) - 1);
+  let mut n = crate::history::start_day(&mut rng).clamp(lo, hi);
+  for _ in 0..len {
+    let (y, _, _) = c.date(n);
+    match rng.below(5) {
+      0 | 1 => solar_date_one(n, recs, log),
+      2 => {
+        let k = seq.months.partition_point(|lm| lm.first <= n);
+        if k > 0 {
+          let lm = &seq.months[k - 1];
+          // the reform eras (AD 237-240) and their neighbours are listed findings of the by-date sweep; not drawn
+          if n < lm.first + lm.days && !(230..=245).contains(&lm.y) {
+            lunar_date_one(lm, n - lm.first + 1, kinds, log);
+          }
+        }
+      }
+      3 => {
+        if !(230..=245).contains(&y) {
+          lunar_index_one(y, rng.range(0, kinds.len() as i64 - 1), kinds, log);
+        }
+      }
+      _ => solar_index_one(y, &recs[rng.below(recs.len())], log),
+    }
+    log.count("history.lookups", 1);
+    n = crate::history::related_day(&mut rng, n).clamp(lo, hi);
+  }
+  log.count("history.sequences", 1);
+}
+
 fn holidays(cfg: &Cfg, log: &mut Log) {
   let recs = match parse_holidays() {
     Ok(r) => r,
@@ -643,6 +679,11 @@ pub fn run(cfg: &Cfg) -> (Log, Meta) {
         l.count("solar.colliding_index_pairs", 1);
       }));
     }
+    if !srecs.is_empty() {
+      let nh = cfg.tier.pick(15_000usize, 250_000usize);
+      log.merge(par_range(nh, 50, |i, l| history(i, cfg, &srecs, &kinds, l)));
+      log.floor("history.lookups", cfg.tier.pick(100_000, 2_000_000));
+    }
     let date_years: Vec<i64> = match cfg.tier {
       Tier::Thorough => (1900..=2100).collect(),
       Tier::Quick => (1900..=2100).filter(|y| y % 10 == (cfg.seed % 10) as i64 || *y == 2033 || *y == 2034).collect(),
@@ -664,7 +705,7 @@ pub fn run(cfg: &Cfg) -> (Log, Meta) {
   log.floor("holiday.membership_dates", 14_000);
   let meta = Meta {
     rule: format!(
-      "civil festivals: every date of 1900..2100 (found <=> month-day in the table and year >= founding year; index, name, start year, type), from_index for every (year, index) of {} years and an index past the list, next(n) for 8 step counts from every founded festival; lunar festivals: from_index for every (year, index 0..12) of {} years (falls on the oracle's day: fixed lunar date, Qingming / winter-solstice term day via the enumerated months, last day of the year; its day's own lookup returns it or an earlier-listed festival sharing the day; term index), next(n) for n in {{-14,-13,-1,0,1,12,13,14,27}} on 1/7 of the years, and every lunar date of {} years of 1900..2100 by date (found <=> the oracle says so, leap months never); history: every pair of (year, index) whose decimal concatenation in either order coincides, and (on 1/10 of the years in quick, all in thorough) whose year*K+index coincide for K in 8, 10, 12, looked up back to back in alternating order, and the month/day pairs (1,1k)/(11,k), (1,2k)/(12,k) back to back in both orders in every by-date year; holidays: all records of the raw table (13-character parse, real dates, strictly increasing, offset lands on a rest-day record, returned by from_ymd / get_legal_holiday with flag and name), next(n) for 0, +-1 and 2-4 seeded n from every record, full forward and backward walks, membership of every date 1995..2035, and every date whose digits occur misaligned across a record border. Oracle parsers are the harness' own.",
+      "civil festivals: every date of 1900..2100 (found <=> month-day in the table and year >= founding year; index, name, start year, type), from_index for every (year, index) of {} years and an index past the list, next(n) for 8 step counts from every founded festival; lunar festivals: from_index for every (year, index 0..12) of {} years (falls on the oracle's day: fixed lunar date, Qingming / winter-solstice term day via the enumerated months, last day of the year; its day's own lookup returns it or an earlier-listed festival sharing the day; term index), next(n) for n in {{-14,-13,-1,0,1,12,13,14,27}} on 1/7 of the years, and every lunar date of {} years of 1900..2100 by date (found <=> the oracle says so, leap months never); history: every pair of (year, index) whose decimal concatenation in either order coincides, and (on 1/10 of the years in quick, all in thorough) whose year*K+index coincide for K in 8, 10, 12, looked up back to back in alternating order, and the month/day pairs (1,1k)/(11,k), (1,2k)/(12,k) back to back in both orders in every by-date year, and seeded single-thread sequences of 6..16 festival look-ups (civil by date, lunar by date, both by index) on days related to the previous one; holidays: all records of the raw table (13-character parse, real dates, strictly increasing, offset lands on a rest-day record, returned by from_ymd / get_legal_holiday with flag and name), next(n) for 0, +-1 and 2-4 seeded n from every record, full forward and backward walks, membership of every date 1995..2035, and every date whose digits occur misaligned across a record border. Oracle parsers are the harness' own.",
       match cfg.tier {
         Tier::Thorough => 9998,
         Tier::Quick => 630,
